@@ -31,6 +31,10 @@
      (parent lock of table tb = static lock 10+tb, user-collector mutexes = 50+u, value mutexes = 100+n; lib_disc ranks
      a lock by these ranges), so table 40+ would alias a parent lock with a user / value mutex; lifting it means a
      separate lock constructor per kind in model/Conc.v and in the harness protocol, not a proof change.
+   - C02_construct_disciplined / C02_construct_prog_order (end of file): metric CONSTRUCTION on the shared registry
+     (OConstruct: allocate the value objects, then register every described name in one critical section) and the
+     unregistration of a multi-name collector (OUnregisterN) are operations of the verified class, for every list of
+     names and every number of value objects; all theorems over wf_world cover them.
    Still missing for full strength (hence the _partial names above stay): the amounts are integers; the tie of the model
    programs to the Python is the trace-conformance check of harness/c02.py, i.e. differential testing; termination of
    worlds with collect loops has no bound from the program text (collector bodies may call collectors). *)
@@ -518,4 +522,68 @@ Proof.
     intros t Ht. destruct t as [|[|t]]; [auto|auto|lia].
   - vm_compute. reflexivity.
   - apply Nat.leb_le. vm_compute. reflexivity.
+Qed.
+
+(* ===================================================================================================================
+   Metric construction on a shared registry (model/Conc.v: construct_prog, register_names_prog, unregister_names_prog)
+   OConstruct c ks nc = MetricWrapperBase.__init__ with a registry: the nc value objects are allocated first (each takes
+   the store lock once in the file-backed back-end; a labelled parent allocates none) and the finished metric is then
+   published by registry.register(self), which records EVERY name ks the metric describes (Counter: x, x_total,
+   x_created; Histogram: five names) in one critical section after checking each for a duplicate.
+   OUnregisterN c ks = registry.unregister of such a collector: every recorded name is released, then the collector.
+   Both are in the verified class (C02_operations_disciplined / C02_bodies_disciplined hold for them with NO restriction
+   on c, ks, nc), so every theorem above that quantifies over wf_world (mutual exclusion, no lost update, deadlock
+   freedom, callouts without locks, loads see held values) covers programs that construct metrics while other threads
+   collect, register or unregister; they are loop-free (C02_straight_operations), so C02_terminates covers them; they
+   never store to a value cell, so the final-sum theorems hold unchanged in their presence.
+   What the model cannot express is a metric that is published BEFORE it is built (the model's cells always exist):
+   that the Python allocates before it publishes is checked on the implementation by the direct oracle of
+   harness/c02.py (a concurrent collect of a half-built metric raises) and, in the file-backed back-end, by the trace
+   conformance (the store-lock sections of the allocation precede the registry section, construct_prog_order). *)
+Theorem C02_construct_disciplined : forall mp c ks nc ops,
+  Forall (simple_op_w 10) ops ->
+  lib_disciplined mp (compile_thread mp (OConstruct c ks nc :: OUnregisterN c ks :: ops)).
+Proof.
+  intros mp c ks nc ops H. apply (compile_disciplined_w mp _ 10).
+  constructor; [exact I|]. constructor; [exact I|]. exact H.
+Qed.
+Print Assumptions C02_construct_disciplined.
+
+(* the constructor publishes last: its program is the allocation (lock operations only) followed by the registration *)
+Theorem C02_construct_prog_order : forall mp rb c ks nc,
+  construct_prog mp rb c ks nc = ctor_prog mp nc ++ register_names_prog rb c ks /\ lockonly (ctor_prog mp nc).
+Proof. intros. split; [reflexivity|apply ctor_lockonly]. Qed.
+Print Assumptions C02_construct_prog_order.
+
+(* non-vacuity (file-backed back-end): thread 0 constructs a histogram (5 names, 4 value objects) and unregisters it,
+   thread 1 constructs a labelled counter (3 names, no value object) and increments a counter, thread 2 collects; the
+   world is disciplined, straight apart from the collect, nobody raises, the round-robin schedule finishes every
+   thread, the collect called collector 21 (registered by thread 1 meanwhile), the final tables hold exactly the names
+   of collector 21, and the counter holds its increments *)
+Example C02_construct_nonvacuous :
+  let opss := [[OConstruct 20 [20; 1020; 2020; 3020; 4020] 4; OUnregisterN 20 [20; 1020; 2020; 3020; 4020]];
+               [OConstruct 21 [21; 1021; 2021] 0; OInc (SLoc 1) 5];
+               [OInc (SLoc 1) 2; OCollect 100]] in
+  let bodies := body_table [(100, compile_body true [OCallReg]); (20, compile_body true [OGet (SLoc 200) true true]);
+                            (21, compile_body true [OMulti 4 101]); (101, compile_body true [OGet (DLoc 3 0) true true])] in
+  let ps := map (compile_thread true) opss in
+  let c := exec bodies (concat (repeat [0; 1; 2]%nat 80)) (init_config (fun _ => 0%Z) (fun _ => []) 0 ps) in
+  wf_world true bodies ps /\
+  (forall t, code (thr c t) = []) /\ (forall t, ~ In (EvExc t) (trace c)) /\
+  In (EvCall 2 21 []) (trace c) /\
+  tabs c RC = [(21, 21)] /\ tabs c RN = [(21, 21); (1021, 21); (2021, 21)] /\
+  heap c (LStat 1) = 7%Z /\ total_issued_stat 1 opss = 7%Z.
+Proof.
+  cbv zeta. split; [|split; [|split; [|split; [|split; [|split; [|split]]]]]].
+  - split.
+    + repeat constructor; apply wf_prog_disciplined; vm_compute; reflexivity.
+    + intro b. apply body_table_prop; [exists 1%nat; reflexivity|].
+      repeat constructor; apply wf_prog_disciplined; vm_compute; reflexivity.
+  - intro t. destruct t as [|[|[|t]]]; vm_compute; reflexivity.
+  - intro t. vm_compute. intro H. repeat (destruct H as [H|H]; [discriminate|]). exact H.
+  - vm_compute. tauto.
+  - vm_compute. reflexivity.
+  - vm_compute. reflexivity.
+  - vm_compute. reflexivity.
+  - vm_compute. reflexivity.
 Qed.
